@@ -72,17 +72,17 @@ type lcWorld struct {
 }
 
 type lcTx struct {
-	kind string
-	msgs []sdk.Msg
+	kind   string
+	msgs   []sdk.Msg
 	signer *node.Account
-	desc string
-	prop *lcProp
-	upd  *lcUpd
+	desc   string
+	prop   *lcProp
+	upd    *lcUpd
 }
 
 type lcUpd struct {
-	name string
-	cl   *lcClient
+	name   string
+	cl     *lcClient
 	commit func()
 }
 
